@@ -120,6 +120,13 @@ def scopesOK (f : File) : Bool :=
   | none => false
   | some fs => (fs.drop 1).all (fun p => (fileBlks f).any (fun b => b.lo == p.1 && b.hi == p.2))
 
+/-- the statement lines of every multi-line block lie strictly inside a function scope (the scope
+    of the function whose body holds the block) -/
+def linesInFuncOK (f : File) : Bool :=
+  match functionScopes f with
+  | none => false
+  | some fs => (fileBlks f).all (fun b => !(b.lo < b.hi) || b.lines.all (fun l => searchScopes fs l != 0))
+
 def wfFile (f : File) : Bool :=
   f.decls.all shapeD && (fileBlks f).all (fun b => blkOK f b && forcedOK b) && oneLinersOK f
 
@@ -132,7 +139,8 @@ def wfReasons (f : File) : List String :=
   (if (fileBlks f).all (blkOK f) then [] else ["blocks"]) ++
   (if (fileBlks f).all forcedOK then [] else ["forced"]) ++
   (if oneLinersOK f then [] else ["one-liners"]) ++
-  (if scopesOK f then [] else ["scopes"])
+  (if scopesOK f then [] else ["scopes"]) ++
+  (if linesInFuncOK f then [] else ["lines-in-func"])
 
 /-- the statement of C01/C02 about one position: a statement boundary of a block of the file -/
 def legalLine (f : File) (m : Nat) : Bool :=
